@@ -387,7 +387,8 @@ static AIToolbox::POMDP::Belief mkBelief(const Core & c, const std::vector<size_
 
 // cases 4, 5, 6: `sampleAction(a, key, horizon)` as the very first call on MCTS / POMCP / rPOMCP (fixes/C19-3: the first two
 // index an empty vector in the source as first read; a crash of case 4 / 5 is classified by SPEC['classify_crash'])
-static const long kWitness = 7;
+// case 7: rPOMCP on a self-loop model, fresh call then one advance (fixes/C19-4: the value leaves the achievable range)
+static const long kWitness = 8;
 
 long verif::verif_ncases(const std::string & tier) { return kWitness + (tier == "thorough" ? 9000 : 2000); }
 
@@ -405,14 +406,20 @@ void verif::verif_case(Rng & rng, long idx, const std::string & tier) {
         l.emit();
     }
     bool witness = idx < kWitness;
-    static const int wkind[] = {0, 1, 2, 3, 0, 2, 3};
+    static const int wkind[] = {0, 1, 2, 3, 0, 2, 3, 3};
     int kind = witness ? wkind[idx] : (int)rng.below(6);
     // the advancing overload first: witnesses 4..6; at random only for rPOMCP (whose constructor builds the head's action nodes)
-    bool firstAdv = witness ? idx >= 4 : ((kind == 3 || kind == 5) && rng.coin(1, 12));     // 4 = MCTS on a hashed non-integral state type, 5 = rPOMCP with the entropy measure
+    bool firstAdv = witness ? (idx >= 4 && idx <= 6) : ((kind == 3 || kind == 5) && rng.coin(1, 12));     // 4 = MCTS on a hashed non-integral state type, 5 = rPOMCP with the entropy measure
     unsigned maxSteps = 0;
     auto plan = genPlan(rng, tier, witness, maxSteps);
     Core c; genCore(c, rng, kind == 4 ? 1 : (kind == 5 ? 3 : kind), witness, maxSteps);
     c.entropy = kind == 5;
+    if (idx == 7) {   // one action, one observation, every state loops on itself: the knowledge measure is 1 at every step
+        c.nb = 2; c.Amax = 1; c.O = 1; c.layered = false; c.tcap = 1; c.gamma = 0.5; c.rmin = c.rmax = 1.0;
+        c.numA.assign(2, 1); c.term.assign(2, 0); c.out.assign(2, {});
+        for (size_t b = 0; b < 2; ++b) c.out[b].assign(1, std::vector<Outcome>{Outcome{b, 0, 1.0, 1}});
+        plan.clear(); plan.push_back({2, 10}); plan.push_back({2, 1});
+    }
     c.rng = Rng(rng.next());
     AIToolbox::Seeder::setRootSeed((unsigned)rng.next());   // the planners seed their own engine from the global Seeder: make the case replayable
     static const double es[] = {1.0, 0.5, 4.0, 100.0, 0.0, -1.0};
@@ -456,7 +463,7 @@ void verif::verif_case(Rng & rng, long idx, const std::string & tier) {
             [&](Line & l, Path & p, size_t & n) { dumpPomcp(pl.getGraph(), p, l, n); },
             [&](size_t a, size_t k) { auto & g = pl.getGraph(); return a < g.children.size() && g.children[a].children.count(k) > 0; }, true, nullptr, firstAdv);
     } else if (kind == 3) {
-        unsigned kk = 1 + (unsigned)rng.below(12);
+        unsigned kk = idx == 7 ? 1000u : 1 + (unsigned)rng.below(12);
         size_t bsP = 1 + rng.below(6);
         GMFixed m; m.c = &c; AIToolbox::POMDP::rPOMCP<GMFixed, false> pl(m, bsP, 1, expl, kk);
         RHooks rh; rh.beliefParam = bsP;
